@@ -172,7 +172,8 @@ TErrLoc == /\ IsEvent("errloc") /\ UNCHANGED <<fs, objs, errloc, Globals>>
 \* econf_getExtValue on an entry that stems from a parsed file and is still in an object with that file's path
 TExt == /\ IsEvent("ext") /\ UNCHANGED <<fs, objs, errloc, Globals>>
         /\ IF ~Known(Ev.h) \/ Ev.k = <<>> THEN UNCHANGED diverged
-           ELSE LET o == objs[Ev.h]  i == FindE(o, GroupArg(Ev.g), Ev.k[1]) IN
+           \* (like the key listing, the extended getter takes the section name literally: "[A]" is not "A")
+           ELSE LET o == objs[Ev.h]  i == FindE(o, IF Ev.g = <<>> THEN NoGrp ELSE Ev.g[1], Ev.k[1]) IN
                 IF i = 0 THEN Check(~Ok(Ev.rc), [rc |-> "ECONF_NOKEY"])
                 ELSE IF o.path = <<>> \/ o.ents[i].line = 0 THEN UNCHANGED diverged      \* merged / built: not a parsed file's entry
                 ELSE LET w == ExtOf(o, i) IN
